@@ -118,6 +118,10 @@ def entry(td, name, path, date, kind='f', data=None, info_override=None):
         out.append(['f', pay + '/inner', 'inner of ' + name])
         out.append(['d', pay + '/sub', 0o700])
         out.append(['f', pay + '/sub/deep', 'deep'])
+        out.append(['l', pay + '/sub/to_canary_dir', '/canary/rodir'])
+        out.append(['l', pay + '/to_canary_file', '/canary/file'])
+        out.append(['l', pay + '/sub/rel_up', '../../../../../canary/file'])
+        out.append(['l', pay + '/sub/dangling', 'no/such'])
     elif kind == 'l':
         out.append(['l', pay, data if data is not None else '/canary/file'])
     elif kind == 'none':
@@ -198,8 +202,8 @@ def populate(rng, lay, n_entries=None, malformed_rate=0.25, insecure_too=True, r
                 pathv = rel
                 full = os.path.join(vol if kind != 'home' else '/', rel)
         date = rng.choice(DATES)
-        pk = rng.choice(['f', 'f', 'f', 'd', 'l'])
-        nodes += entry(td, name, pathv, date, pk)
+        pk = rng.choice(['f', 'f', 'f', 'd', 'l', 'l'])
+        nodes += entry(td, name, pathv, date, pk, data=(rng.choice(['/canary/file', '/canary/dir', '/canary/rodir', '../../../../canary/dir', 'nowhere']) if pk == 'l' else None))
         ents.append({'td': td, 'vol': vol, 'dirkind': kind, 'usable': usable, 'name': name, 'path': full, 'pathv': pathv,
                      'date': date, 'payload': pk})
     mal = []
@@ -208,9 +212,13 @@ def populate(rng, lay, n_entries=None, malformed_rate=0.25, insecure_too=True, r
         mk = rng.choice(MALFORMED)
         nodes += malformed(rng, td, mk, str(k))
         mal.append({'td': td, 'kind': mk})
-    nodes.append(['d', '/canary', 0o755])
-    nodes.append(['f', '/canary/file', 'canary'])
+    nodes += canary()
     return nodes, ents, mal
+
+
+def canary():
+    return [['d', '/canary', 0o755], ['f', '/canary/file', 'canary'], ['d', '/canary/rodir', 0o555],
+            ['f', '/canary/rodir/inside', 'inside'], ['d', '/canary/dir', 0o755], ['f', '/canary/dir/x', 'x']]
 
 
 def read_cmd(rng, lay, ents, allow=('list', 'empty', 'rm', 'restore')):
@@ -293,8 +301,7 @@ def victims(rng, lay, n=None):
         else:
             nodes.append(['l', full, 'nowhere/%d' % k])
         vs.append({'path': full, 'parent': parent, 'name': name, 'kind': kind})
-    nodes.append(['d', '/canary', 0o755])
-    nodes.append(['f', '/canary/file', 'canary'])
+    nodes += canary()
     return nodes, vs
 
 
